@@ -383,6 +383,18 @@ func scenarios(thorough bool) []scenario {
 			Announce: [][2]int{{1, 0}, {2, 0}, {3, 0}, {4, 0}}, AnnAt: []int{0, 20, 20, 30}, ArriveAt: []int{-1}, Preheld: []bool{false}},
 	)
 	if thorough {
+		// the thorough tier usually ends at its deadline: explore the full-queue scenarios (the newest ones) first
+		var fq, rest []scenario
+		for _, sc := range out {
+			if sc.FullUntil > 0 {
+				fq = append(fq, sc)
+			} else {
+				rest = append(rest, sc)
+			}
+		}
+		out = append(fq, rest...)
+	}
+	if thorough {
 		out = append(out, scenario{Name: "two items, 3 peers each, staggered arrivals", Announce: [][2]int{{1, 0}, {2, 0}, {3, 0}, {1, 1}, {2, 1}, {3, 1}}, ArriveAt: []int{120, 220}, Preheld: []bool{false, false}})
 	}
 	return out
